@@ -4,6 +4,48 @@ from ..mutants import Mutant, add
 CMP = "spydrnet/compare/compare_netlists.py"
 
 add("C20",
+    Mutant("K7 the direction comparison wrapped in a one-element tuple",
+           (CMP, """        assert port_orig.direction == port_composer.direction, (""",
+            """        same_direction = (
+            port_orig.direction == port_composer.direction,
+        )
+        assert same_direction, ("""), "K7|"),
+    Mutant("K8 references compared only when both are present",
+           (CMP, """        assert (
+            instances_orig.reference is None and instances_composer.reference is None
+        ) or (
+            self.get_identifier(instances_orig.reference)
+            == self.get_identifier(instances_composer.reference)
+            and self.get_identifier(instances_orig.reference.library)
+            == self.get_identifier(instances_composer.reference.library)
+        ), "Instances do not have the same reference definition."
+""", """        if instances_orig.reference is not None and instances_composer.reference is not None:
+            assert (
+                self.get_identifier(instances_orig.reference)
+                == self.get_identifier(instances_composer.reference)
+                and self.get_identifier(instances_orig.reference.library)
+                == self.get_identifier(instances_composer.reference.library)
+            ), "Instances do not have the same reference definition."
+"""), "K8|"),
+    Mutant("twin: both-missing handled by an early branch",
+           (CMP, """        assert (
+            instances_orig.reference is None and instances_composer.reference is None
+        ) or (
+            self.get_identifier(instances_orig.reference)
+            == self.get_identifier(instances_composer.reference)
+            and self.get_identifier(instances_orig.reference.library)
+            == self.get_identifier(instances_composer.reference.library)
+        ), "Instances do not have the same reference definition."
+""", """        if instances_orig.reference is None:
+            assert instances_composer.reference is None, "Instances do not have the same reference definition."
+        else:
+            assert (
+                self.get_identifier(instances_orig.reference)
+                == self.get_identifier(instances_composer.reference)
+                and self.get_identifier(instances_orig.reference.library)
+                == self.get_identifier(instances_composer.reference.library)
+            ), "Instances do not have the same reference definition."
+"""), None),
     Mutant("K1 direction compared with itself",
            (CMP, "assert port_orig.direction == port_composer.direction, (", "assert port_orig.direction == port_orig.direction, ("), "compare_ports|self-compare"),
     Mutant("K1 helper called with the original twice",
